@@ -17,6 +17,7 @@ THEOREMS = [
     "c17_no_attempt_after_close_partial", "c17_stops_when_told",
     "c17_close_while_waiting_stops", "c17_closed_select_does_not_park", "c17_false_is_justified",
     "c17_nextch_one_position_ahead", "c17_next_arms_current_position",
+    "c17_next_yields_only_through_select", "c17_stopped_prompt_poll_refuses", "c17_stopped_prompt_poll_enabled",
     "c17_with_max_attempts", "c17_with_max_attempts_calls_le_n",
     "c17_with_max_attempts_bad_n", "c17_with_max_attempts_stopped_before",
 ]
@@ -41,6 +42,7 @@ LOOP_SIG = {
     1: "first-attempt-refused", 2: "more-than-max-retries-plus-one-attempts",
     3: "attempt-before-lower-edge", 4: "refusal-nobody-asked-for",
     5: "call-did-not-return", 6: "nextch-wrong-channel", 7: "malformed-loop-case",
+    8: "attempts-after-stop-beyond-select-race",
 }
 LOOP_TEXT = {
     1: "the first Next()/NextCh() after Start/Reset (closer open, context live) did not yield an attempt",
@@ -50,6 +52,7 @@ LOOP_TEXT = {
     5: "a call that had to return at once (closer closed / context cancelled, or first attempt) did not return within the 10 s watchdog",
     6: "NextCh() returned the wrong kind of channel",
     7: "malformed case",
+    8: "after the closer was closed / the context cancelled (completely, before the calls) Next() handed out more than 2 further attempts in one loop, not counting the first call after a Reset: more than the select race with an already due timer can explain",
 }
 WMA_SIG = {
     1: "with-max-attempts-bad-n-not-refused", 2: "with-max-attempts-more-than-n-calls",
@@ -73,6 +76,7 @@ def run(tier, seed):
         "Go's select (any ready case may be picked; a parked select is completed by the first case that becomes ready), time.After, channel close and context cancellation are modelled as labels, exercised by the correspondence cases, not verified; Retry is used from one goroutine (its contract)",
         "math/rand's global source seeded by the harness before each retryIn is how the jitter draw is known (self-checked at harness start; otherwise draws are 'unknown' and the model is compared through its band)",
         "timing: only lower bounds on elapsed time are judged; the single upper bound is a 10 s watchdog on calls that must return at once",
+        "a loop told to stop may still hand out an attempt when the runtime fires an already due timer between time.After and the select (partial theorem): up to 2 such attempts per loop are attributed to that race, a third is reported; the zero/negative back-off loops run under GOMAXPROCS(1), where the race needs a preemption inside a ~100 ns window",
         "WithMaxAttempts: fn is modelled by its success pattern only; errors.Wrap/New return non-nil for non-nil input",
     ]
     ok, detail = vlib.proof_stage(res, "C17", THEOREMS, refuted=REFUTED)
@@ -108,9 +112,9 @@ def run(tier, seed):
     res.coverage.update({
         "evaluations": summary["ri_samples"] + n_loop + n_wma,
         "distinct_nontrivial": summary["distinct_nontrivial"],
-        "rule": "retryIn: %d generated option sets (zero = default fields, caps that bind at once, dyadic and random float multipliers / randomisation factors, magnitudes < 2^40 ns) x 4 schedule positions (reached through NextCh, one after Reset) x ~50 samples, each with its known jitter draw; non-trivial = position >= 1 or after Reset. loops: fixed corpus (Reset-then-close, close during / before an hour's wait, MaxRetries = 2 with Reset) + random sequences of Next / NextCh / Reset / close / cancel / Next-with-concurrent-stop-at-a-generated-instant on three option classes (ms back-offs; 1 h back-offs; ms then 1 h); non-trivial = at least one waited attempt or one stop. WithMaxAttempts: n in -1..6, random success patterns, closer closed / context cancelled before, inside the k-th call of fn, or concurrently; non-trivial = n >= 1. Distinct by content." % summary["option_sets"],
+        "rule": "retryIn: %d generated option sets (zero = default fields, caps that bind at once, dyadic and random float multipliers / randomisation factors, magnitudes < 2^40 ns) x 4 schedule positions (reached through NextCh, one after Reset) x ~50 samples, each with its known jitter draw; non-trivial = position >= 1 or after Reset. loops: fixed corpus (Reset-then-close, close during / before an hour's wait, MaxRetries = 2 with Reset) + random sequences of Next / NextCh / Reset / close / cancel / Next-with-concurrent-stop-at-a-generated-instant on three option classes (ms back-offs; 1 h back-offs; ms then 1 h) + loops whose back-off is zero or negative (Multiplier < 1 decayed below 1 ns; RandomizationFactor 1..5) told to stop and asked 40 more times, run with one P; non-trivial = at least one waited attempt or one stop. WithMaxAttempts: n in -1..6, random success patterns, closer closed / context cancelled before, inside the k-th call of fn, or concurrently; non-trivial = n >= 1. Distinct by content." % summary["option_sets"],
         "samples": summary["samples"],
-        "distribution": {k: summary[k] for k in ("ri", "ri_samples", "option_sets", "loop", "wma", "loop_classes", "loop_waited_attempts", "loop_stops", "loop_async_stops", "loop_hangs", "loop_known_shape", "wma_kinds", "draws_known")},
+        "distribution": {k: summary[k] for k in ("ri", "ri_samples", "option_sets", "loop", "wma", "loop_classes", "loop_waited_attempts", "loop_stops", "loop_async_stops", "loop_attempts_after_stop", "loop_hangs", "loop_known_shape", "wma_kinds", "draws_known")},
         "traces_validated_against_impl": n_loop + n_wma,
         "cases_file": path,
     })
